@@ -193,6 +193,22 @@ func C06Histories(tier string) []C06History {
 	if tier == "thorough" {
 		depth, k, other = 3, 7500, 300
 	}
+	// the failure path of the proof system: nobody proves again, so that reward blocks strike provers off, burn their
+	// contracts and drop the files - 9 blocks after nothing or one template
+	long := [][]string{{}, {"Proof:P1:A"}, {"Proof:P3:B"}, {"DeleteA"}, {"Report:P1"}, {"PostOnce"}}
+	if tier == "thorough" {
+		long = [][]string{{}}
+		for _, t := range c06Templates {
+			long = append(long, []string{t})
+		}
+	}
+	for _, p := range long {
+		h := append([]string{}, p...)
+		for i := 0; i < 9; i++ {
+			h = append(h, "NextBlock")
+		}
+		out = append(out, C06History{C06Mix{}, h})
+	}
 	// every sequence of templates up to the suffix depth - not only the search-tree paths: a transaction that leaves the
 	// stored state unchanged (a rejected proof, say) may still leave something in the process
 	var seqs [][]string
